@@ -487,7 +487,7 @@ pub fn check() -> PropertyCheck {
             Box::new(Pbt {
                 name: "tcp-channel",
                 quick: 20_000,
-                thorough: 1_000_000,
+                thorough: 3_000_000,
                 strat: channel_strat,
                 test: channel_test,
                 max_shrink: 3000,
@@ -495,7 +495,7 @@ pub fn check() -> PropertyCheck {
             Box::new(Pbt {
                 name: "tcp-table",
                 quick: 600,
-                thorough: 300_000,
+                thorough: 60_000,
                 strat: tcp_table_strat,
                 test: tcp_table_test,
                 max_shrink: 2000,
